@@ -12,6 +12,7 @@ type Heater struct {
 
 func NewHeater() *Heater {
 	svc := Heater{}
+	svc.HeaterCooler = NewHeaterCooler()
 
 	svc.HeatingThresholdTemperature = characteristic.NewHeatingThresholdTemperature()
 	svc.AddCharacteristic(svc.HeatingThresholdTemperature.Characteristic)
